@@ -405,7 +405,7 @@ impl StoryState {
 
         if has_patch {
             let curr_count = self.visit_count_for_container(container);
-            let new_count = curr_count + 1;
+            let new_count = curr_count.wrapping_add(1);
             self.patch
                 .as_mut()
                 .unwrap()
@@ -418,7 +418,7 @@ impl StoryState {
                 count = existing_count;
             }
 
-            count += 1;
+            count = count.wrapping_add(1);
             self.visit_counts.insert(container_path_str, count);
         }
     }
